@@ -188,7 +188,7 @@ def v1Expected (oc : OutCase) (wits : List Wit) (groups : List (String × Bytes 
     | some (_, key), .null => some s!"{key}=s{hexS nullHex}"
     | some (_, key), .some o d =>
       let str := if d.isEmpty then Bytes.ofString o else Bytes.ofString o ++ Bytes.ofString " (" ++ d ++ Bytes.ofString ")"
-      some s!"{key}=s{Bytes.toHex str}"
+      some s!"{key}=s{Bytes.toHex (Bytes.jsonRoundTrip str)}"
     | _, _ => none
   let gm := groups.foldl (fun (acc : List (String × Nat)) (s, _, t) => match t with
     | some c => if acc.any (·.1 == s) then acc.map (fun p => if p.1 == s then (s, c) else p) else acc ++ [(s, c)]
@@ -205,7 +205,7 @@ def v2Expected (oc : OutCase) : String :=
     -- reduce the dyadic to lowest terms as big.Rat prints it
     let g := Nat.gcd sc.num sc.den
     ":".intercalate [hexS i.symbol, toString i.value.n, hexS i.unit, hexS i.humaner, s!"{sc.num / g}/{sc.den / g}", "1",
-      hexS i.objectName, Bytes.toHex i.objectDescription, hexS i.description]
+      hexS i.objectName, Bytes.toHex (Bytes.jsonRoundTrip i.objectDescription), hexS i.description]
   ",".intercalate (parts.toArray.qsort (· < ·)).toList
 
 def outputEngine : Engine := fun inp obs =>
